@@ -229,6 +229,59 @@ def main(tier, seed):
                     res.violations += 1
             if len(samples) < 6 and tok and k % 9973 == 17:
                 samples.append({"kind": kind, "input": d, "impl": io[k]})
+    # ---- ENUMERATION / BOOLEAN / LOGICAL tokens (sdaiEnum.cc ReadEnum vs coq/P21Enum.v)
+    import itertools
+    LEGAL = {"L": {"F": 0, "T": 1, "U": 3}, "B": {"F": 0, "T": 1}, "E": {"AHEAD": 0, "BEHIND": 1, "A1": 2}}
+    alpha = [".", "T", "F", "U", "t", "X", "_", "1", " "]
+    ebodies = [""]
+    for n in range(1, (4 if tier == "quick" else 6)):
+        for tup in itertools.product(alpha, repeat=n):
+            ebodies.append("".join(tup))
+    ebodies += [".UNSET.", ".unset.", ".TRUE.", ".FALSE.", ".UNKNOWN.", ".AHEAD.", ".ahead.", ".Behind.", ".A1.", ".a1.", ".A2.", ".AHEAD", "AHEAD.",
+                "AHEAD", ".AHEAD.BEHIND.", ".A_1.", "._A.", ".1A.", ".T.F.", "..T..", ". T.", ".T .", "$", "*", "#1", "'T'", ".T" + "T" * 300 + "."]
+    for kind in ("L", "B", "E"):
+        datas = [b + suf for b in ebodies for suf in (",", ")", " ,", "")]
+        reqs = ["%s %s" % (kind, hexs(d)) for d in datas]
+        rc_i, io = run(exe, reqs)
+        rc_m, mo = run(drv, reqs)
+        if rc_i != 0:
+            res.violation("h_lex crashed (rc=%d) on the %s stream" % (rc_i, kind), {"kind": kind, "rc": rc_i}, found_input=False)
+        for k, d in enumerate(datas):
+            total += 1
+            if k >= len(io) or not io[k].strip():
+                break
+            ia, _ = parse_ans(io[k])
+            kinds_hist[kind] = kinds_hist.get(kind, 0) + 1
+            sev_hist[ia[2]] = sev_hist.get(ia[2], 0) + 1
+            body = d.lstrip(" \t")
+            m = re.match(r"^\.([A-Za-z_][A-Za-z0-9_]*)\.(.*)$", body, re.S)
+            msg = None
+            if m:
+                word, after = m.group(1).upper(), m.group(2)
+                if ia[3] != len(after):
+                    msg = "after the token %r %d bytes are left, expected %d: the delimiter is consumed or not reached" % (d, ia[3], len(after))
+                elif word in LEGAL[kind]:
+                    nontrivial.add((kind, d))
+                    if not (ia[0] == 1 and int(ia[1]) == LEGAL[kind][word] and ia[2] == 3):
+                        msg = "legal token .%s. is not read to its value: assigned=%d value=%s severity=%d" % (word, ia[0], ia[1], ia[2])
+                elif ia[2] >= 3 or ia[0] == 1:
+                    msg = "token .%s. spells no item of the type, yet it is read without an error (assigned=%d value=%s severity=%d)" % (word, ia[0], ia[1], ia[2])
+            else:
+                # not a well-formed enumeration token: never a silent success
+                if ia[2] >= 3 and body[:1] not in (",", ")", ""):
+                    msg = "malformed token %r is read without an error (assigned=%d value=%s)" % (d, ia[0], ia[1])
+            if msg:
+                oracle_fail += 1
+                res.violation("%s: %s" % ({"L": "LOGICAL", "B": "BOOLEAN", "E": "ENUMERATION"}[kind], msg),
+                              {"kind": kind, "input": d, "impl": io[k], "replay": "echo '%s %s' | %s" % (kind, hexs(d), exe)})
+            if k < len(mo) and io[k].split() != mo[k].split():
+                disagreements += 1
+                if disagreements <= 5:
+                    res.violation("model P21Enum.v and ReadEnum disagree on %r: impl %r model %r" % (d, io[k], mo[k] if k < len(mo) else None),
+                                  {"kind": kind, "input": d, "theorem_or_correspondence": "correspondence C09: coq/P21Enum.v vs sdaiEnum.cc"},
+                                  found_input=False)
+                else:
+                    res.violations += 1
     # writer
     r = rng(seed, "c09w")
     wv = writer_cases(r, tier)
@@ -298,7 +351,7 @@ def main(tier, seed):
         "severity_histogram": {str(k): v for k, v in sev_hist.items()},
         "correspondence_disagreements": disagreements,
         "oracle_failures": oracle_fail,
-        "unproved_clauses": ["STRING/BINARY/ENUMERATION/LOGICAL/entity-reference tokens are not in the model yet "
+        "unproved_clauses": ["STRING/BINARY/entity-reference tokens are not in the model yet "
                              "(covered by C01/C03 correspondence only)",
                              "binary64 value of a decimal numeral (trusted: strtod)"],
     })
